@@ -21,6 +21,10 @@ Driver for stream `flags` (C16): one op per line, one observation per line.
         hop = <requested flags>:<contract id>:<method>:<safe 0/1>      (System.Contract.Call from the current context;
         the entry context has flags F0 and is not deployed)
   loadscript <F> <requested>                 -> denied | <child flags>
+  nativecall <F>                             -> <flags of a context started by contract.CallFromNative from a native context with flags F>
+  dynchain <F0> <relay id> <callee id> <method> <safe 0/1>
+        entry(F0) calls relay.dyn (requested All), which loads a dynamic script (requested All), which calls
+        callee.method (requested All)       -> halt <callee flags> | fault:flags <n> | fault:perm <n>
 -/
 import NeoModel.Base.Proto
 import NeoModel.Model.Flags
@@ -163,6 +167,36 @@ def step' (st : St) (ws : List String) : St × String :=
     match f0.toNat?, hops.mapM parseHop with
     | some f0, some hs => (st, runChain st f0 hs)
     | _, _ => (st, "bad-op")
+  | ["nativecall", f] =>
+    match f.toNat? with
+    | some f =>
+      let p : Prim := ⟨CallFlags.empty, c⟩
+      let s := step Params.real (State.init ⟨CallFlags.ofNat f, none, false⟩) (.nativeCall p ⟨0, ⟨[], []⟩, "onNEP17Payment", false⟩)
+      match s.stack with
+      | child :: _ => (st, toString child.flags.toNat)
+      | [] => (st, "bad")
+    | none => (st, "bad-op")
+  | ["dynchain", f0, rid, cid, method, sf] =>
+    match f0.toNat?, rid.toNat?, cid.toNat?, syscallPrim "System.Contract.Call", syscallPrim "System.Runtime.LoadScript" with
+    | some f0, some rid, some cid, some sc, some ls =>
+      let man (id : Nat) : Manifest := ((st.contracts.find? (·.1 == id)).map (·.2)).getD ⟨[], []⟩
+      let prog : List Instr := [.call sc CallFlags.all ⟨rid, man rid, "dyn", false⟩, .loadScript ls CallFlags.all,
+                                .call sc CallFlags.all ⟨cid, man cid, method, sf == "1"⟩]
+      -- run instruction by instruction to know where it stopped and why
+      let rec go (s : State) (is : List Instr) (n : Nat) : String :=
+        match is with
+        | [] => match s.stack with
+          | top :: _ => s!"halt {top.flags.toNat}"
+          | [] => "bad"
+        | i :: rest =>
+          let s' := step Params.real s i
+          if s'.halted then
+            match s.stack, i.prim? with
+            | cur :: _, some p => (if cur.flags.has p.req then "fault:perm " else "fault:flags ") ++ toString n
+            | _, _ => "bad"
+          else go s' rest (n + 1)
+      (st, go (State.init ⟨CallFlags.ofNat f0, none, false⟩) prog 0)
+    | _, _, _, _, _ => (st, "bad-op")
   | ["loadscript", f, rq] =>
     match f.toNat?, rq.toNat?, syscallPrim "System.Runtime.LoadScript" with
     | some f, some rq, some p =>
